@@ -29,7 +29,8 @@ class NodeWorld:
         # worker process, so state a changed tree keeps at module level cannot carry a verdict from run to run
         self.sim = LedgerSim({'base': cfg.get('base', 'hreal'), 'hard': cfg.get('hard', False), 'k': cfg.get('k', 0),
                               'elapsed': cfg.get('elapsed', 1_209_600),
-                              'salt': cfg.get('salt', 1 + script.get('seed', 0) % 0xfffffff0)}, prop, res, self.trace)
+                              'salt': cfg.get('salt', 0 if os.environ.get('VERIF_TEST_NOSALT') else 1 + script.get('seed', 0) % 0xfffffff0)},
+                             prop, res, self.trace)
         self.sim.run(cfg.get('build', []))
         self.store_file = None
         path = ':memory:'
